@@ -430,12 +430,83 @@ BYTES_BREAKS = frozenset(['\n', '\r'])
 WS = frozenset(' \t\n\r\x0b\x0c')
 
 
-def removed_breaks(e):
+def regex_removes(pattern, repl, flags=0):
+    """characters of ALL_BREAKS | WS that ``re.sub(pattern, repl, text)`` cannot leave in its
+    result, by the shape of the (constant) pattern: the pattern has no look-around, anchor or
+    back-reference (a match at a position does not depend on the context), does not match the empty
+    string, and matches the character on its own -- then the scan finds a non-empty match at every
+    position it reaches that holds the character, so each occurrence lies inside some match; the
+    replacement does not re-insert it.  The constant pattern is compiled and asked about the
+    one-character strings (constant folding of the stdlib regex engine, no code of the package)"""
+    import re
+    try:
+        import re._parser as sre_parse
+    except ImportError:                                    # before 3.11
+        import sre_parse
+    try:
+        tree = sre_parse.parse(pattern, flags)
+        rx = re.compile(pattern, flags)
+    except Exception:
+        return None
+
+    def context_free(items):
+        for op, av in items:
+            name = str(op)
+            if name in ('AT', 'ASSERT', 'ASSERT_NOT', 'GROUPREF', 'GROUPREF_EXISTS'):
+                return False
+            subs = []
+            if name in ('MAX_REPEAT', 'MIN_REPEAT', 'POSSESSIVE_REPEAT'):
+                subs = [av[2]]
+            elif name == 'SUBPATTERN':
+                subs = [av[3]]
+            elif name == 'BRANCH':
+                subs = list(av[1])
+            elif name == 'ATOMIC_GROUP':
+                subs = [av]
+            for sub in subs:
+                if not context_free(sub):
+                    return False
+        return True
+    if not context_free(tree) or rx.fullmatch('') is not None:
+        return frozenset()
+    if not isinstance(repl, str):
+        return None
+    return frozenset(ch for ch in (ALL_BREAKS | WS) if rx.fullmatch(ch) is not None and ch not in repl)
+
+
+def removed_breaks(e, consts=None):
     """line-break characters that cannot occur in the value of expression *e* (a str built
     from an arbitrary test name), or None if no sanitising construct is recognised"""
     removed = set()
     found = False
+    consts = consts or {}
     for n in ast.walk(e):
+        if isinstance(n, ast.Call) and isinstance(n.func, ast.Attribute) and n.func.attr == 'sub':
+            # re.sub(pattern, repl, text)  /  COMPILED.sub(repl, text)
+            pat = rp = None
+            fl = 0
+            if dotted(n.func.value) == 're' and len(n.args) >= 3:
+                pat, rp = n.args[0], n.args[1]
+            elif len(n.args) >= 2:
+                pat, rp = n.func.value, n.args[0]
+            if isinstance(pat, ast.Name) and pat.id in consts:
+                pat = consts[pat.id]
+            if isinstance(pat, ast.Call) and dotted(pat.func) == 're.compile' and pat.args:
+                if len(pat.args) > 1 or pat.keywords:
+                    return None
+                pat = pat.args[0]
+            if isinstance(pat, ast.Name) and pat.id in consts:
+                pat = consts[pat.id]
+            if isinstance(rp, ast.Name) and rp.id in consts:
+                rp = consts[rp.id]
+            if isinstance(pat, ast.Constant) and isinstance(pat.value, str) and isinstance(rp, ast.Constant):
+                rr = regex_removes(pat.value, rp.value, fl)
+                if rr is None:
+                    return None
+                removed |= rr
+                found = True
+                continue
+            return None
         if isinstance(n, ast.Call) and isinstance(n.func, ast.Attribute):
             a = n.func.attr
             if a == 'splitlines' and not n.args:
@@ -490,7 +561,12 @@ def reader_breaks(ctx, fi):
     for c in own_calls(fi.node):
         if isinstance(c.func, ast.Attribute) and c.func.attr == 'splitlines' and \
                 'stderr' in norm(c.func.value):
-            out = set(BYTES_BREAKS) if not c.args else None
+            # bytes.splitlines breaks at CR / LF only; once the report is decoded, str.splitlines
+            # breaks at every Unicode line boundary
+            text = any(isinstance(x, ast.Call) and isinstance(x.func, ast.Attribute) and
+                       x.func.attr == 'decode' for x in ast.walk(c.func.value)) or \
+                any(isinstance(x, ast.Call) and dotted(x.func) == 'str' for x in ast.walk(c.func.value))
+            out = (set(ALL_BREAKS) if text else set(BYTES_BREAKS)) if not c.args else None
         if isinstance(c.func, ast.Attribute) and c.func.attr == 'split' and \
                 'stderr' in norm(c.func.value) and c.args and isinstance(c.args[0], ast.Constant):
             v = c.args[0].value
@@ -513,7 +589,7 @@ def r3_line_discipline(ctx, rep, R='C07.R3'):
         if not c.args:
             continue
         n += 1
-        rem = removed_breaks(_resolve_nearest(c.args[0], c))
+        rem = removed_breaks(_resolve_nearest(c.args[0], c), w.module.constants)
         if rem is None:
             rep.undecide(R, norm(c), 'unrecognised sanitising construct')
             continue
